@@ -92,11 +92,18 @@ pub fn inst_oracles(evs: &str) -> (String, String, String) {
             if f.len() != 6 || f[0] != "S" {
                 continue;
             }
-            let Some(span) = f[4].strip_prefix('s').and_then(unhexs) else { continue };
+            let Some(span) = f[4].strip_prefix('s').and_then(unhexs) else {
+                continue;
+            };
             let local = unhexs(f[2]).unwrap_or_default();
             if f[1] == format!("b{XNM_HEX}") && local == "name" {
-                let u = quick_xml::escape::unescape(&span).ok().map(|c| c.into_owned());
-                uq.push((hexs(&span), u.map(|u| hexs(&u)).unwrap_or_else(|| "!".into())));
+                let u = quick_xml::escape::unescape(&span)
+                    .ok()
+                    .map(|c| c.into_owned());
+                uq.push((
+                    hexs(&span),
+                    u.map(|u| hexs(&u)).unwrap_or_else(|| "!".into()),
+                ));
             }
             if local == "address" {
                 let t = span.trim();
@@ -123,7 +130,11 @@ pub fn ev_rows(sink: &mut Sink, case: &str, cfg: &plan::JCfg) {
     let enc = plan::enc_cfg(cfg);
     let (uo, po, lo) = inst_oracles(&evs);
     sink.corr(case, format!("instev render {enc}"), evs.clone());
-    sink.corr(case, format!("instev readev {uo} {po} {lo} {evs}"), plan::real_read_installed_xml(xml));
+    sink.corr(
+        case,
+        format!("instev readev {uo} {po} {lo} {evs}"),
+        plan::real_read_installed_xml(xml),
+    );
     sink.spec(case, format!("instev hyp {enc} {uo} {po} {lo}"));
     sink.count("evlevel.configs");
 }
@@ -133,7 +144,10 @@ pub fn ev_rows(sink: &mut Sink, case: &str, cfg: &plan::JCfg) {
 
 /// byte offsets of every tag boundary (`>` followed by anything), i.e. positions right after a `>`
 fn boundaries(doc: &str) -> Vec<usize> {
-    doc.char_indices().filter(|(_, c)| *c == '>').map(|(i, _)| i + 1).collect()
+    doc.char_indices()
+        .filter(|(_, c)| *c == '>')
+        .map(|(i, _)| i + 1)
+        .collect()
 }
 
 /// (start of start tag, end of matching end tag, name, start of content, end of content) of every
@@ -145,7 +159,9 @@ fn elements(doc: &str) -> Vec<(usize, usize, String, usize, usize)> {
     let mut i = 0;
     while i < b.len() {
         if b[i] == b'<' {
-            let Some(j) = doc[i..].find('>').map(|k| i + k) else { break };
+            let Some(j) = doc[i..].find('>').map(|k| i + k) else {
+                break;
+            };
             let inner = &doc[i + 1..j];
             if let Some(name) = inner.strip_prefix('/') {
                 if let Some((s, n, c)) = stack.pop() {
@@ -297,19 +313,37 @@ fn mutations(doc: &str) -> Vec<(String, String)> {
     }
     // 2. every element deleted, duplicated, emptied, written as an empty element
     for (s, e, name, cs, ce) in elements(doc) {
-        out.push((format!("del.{name}@{s}"), format!("{}{}", &doc[..s], &doc[e..])));
-        out.push((format!("dup.{name}@{s}"), format!("{}{}{}", &doc[..e], &doc[s..e], &doc[e..])));
+        out.push((
+            format!("del.{name}@{s}"),
+            format!("{}{}", &doc[..s], &doc[e..]),
+        ));
+        out.push((
+            format!("dup.{name}@{s}"),
+            format!("{}{}{}", &doc[..e], &doc[s..e], &doc[e..]),
+        ));
         if ce > cs {
-            out.push((format!("clear.{name}@{s}"), format!("{}{}", &doc[..cs], &doc[ce..])));
-            out.push((format!("empty.{name}@{s}"), format!("{}<{name}/>{}", &doc[..s], &doc[e..])));
+            out.push((
+                format!("clear.{name}@{s}"),
+                format!("{}{}", &doc[..cs], &doc[ce..]),
+            ));
+            out.push((
+                format!("empty.{name}@{s}"),
+                format!("{}<{name}/>{}", &doc[..s], &doc[e..]),
+            ));
         } else if e > s && doc[s..e].ends_with("/>") {
-            out.push((format!("open.{name}@{s}"), format!("{}<{name}></{name}>{}", &doc[..s], &doc[e..])));
+            out.push((
+                format!("open.{name}@{s}"),
+                format!("{}<{name}></{name}>{}", &doc[..s], &doc[e..]),
+            ));
         }
     }
     // 3. substring replacements, one occurrence at a time
     for (k, (from, to)) in REPLACEMENTS.iter().enumerate() {
         for (i, _) in doc.match_indices(from) {
-            out.push((format!("rep{k}@{i}"), format!("{}{}{}", &doc[..i], to, &doc[i + from.len()..])));
+            out.push((
+                format!("rep{k}@{i}"),
+                format!("{}{}{}", &doc[..i], to, &doc[i + from.len()..]),
+            ));
         }
     }
     // 4. truncations
@@ -350,7 +384,10 @@ pub fn main(opts: &Opts) {
         }
         // two mutations at once (random pairs) — more in the thorough tier
         let n2 = if opts.thorough() { 8000 } else { 1500 };
-        let bases: Vec<String> = base_configs().iter().map(|(_, c)| plan::render_get_config(c)).collect();
+        let bases: Vec<String> = base_configs()
+            .iter()
+            .map(|(_, c)| plan::render_get_config(c))
+            .collect();
         for _ in 0..n2 {
             let b = rng.pick(&bases).clone();
             let m1 = mutations(&b);
@@ -378,12 +415,36 @@ pub fn main(opts: &Opts) {
         progress(&case);
         let real = plan::real_read_installed_xml(doc.clone());
         progress_idle();
-        sink.corr(&case, format!("instev readev {uo} {po} {lo} {evs}"), real.clone());
+        sink.corr(
+            &case,
+            format!("instev readev {uo} {po} {lo} {evs}"),
+            real.clone(),
+        );
         sink.count("docs");
-        let kind = tag.split('.').nth(1).unwrap_or("").split('@').next().unwrap_or("").to_string();
+        let kind = tag
+            .split('.')
+            .nth(1)
+            .unwrap_or("")
+            .split('@')
+            .next()
+            .unwrap_or("")
+            .to_string();
         let kind = kind.trim_end_matches(char::is_numeric).to_string();
-        sink.count(&format!("mutation.{}", if tag.starts_with("pair.") { "pair" } else { &kind }));
-        sink.count(if real == "err" { "result.err" } else if real == "ok:." { "result.ok-none" } else { "result.ok-some" });
+        sink.count(&format!(
+            "mutation.{}",
+            if tag.starts_with("pair.") {
+                "pair"
+            } else {
+                &kind
+            }
+        ));
+        sink.count(if real == "err" {
+            "result.err"
+        } else if real == "ok:." {
+            "result.ok-none"
+        } else {
+            "result.ok-some"
+        });
         if sink.samples.len() < 6 && tag.contains("rep") {
             sink.sample(format!("{tag} => {real}"));
         }
